@@ -101,19 +101,36 @@ class BGPLS(NLRI):
     # Type declaration: subclasses may pass packed data or leave as empty
     _packed: Buffer
 
-    def __init__(self, addpath: PathInfo | None = None) -> None:
-        NLRI.__init__(self, AFI.bgpls, SAFI.bgp_ls)
+    def __init__(self, addpath: PathInfo | None = None, safi: SAFI = SAFI.bgp_ls) -> None:
+        # safi: bgp-ls, or bgp-ls-vpn for an NLRI which has a route distinguisher.
+        # It was always bgp-ls, so a VPN NLRI shared its index with the plain one.
+        NLRI.__init__(self, AFI.bgpls, safi)
         self._packed = b''
+
+    def _wire(self) -> Buffer:
+        # Wire format: [type(2)][length(2)][payload] - _packed includes header
+        # The registered classes keep the route distinguisher of a bgp-ls-vpn NLRI outside of
+        # _packed (GenericBGPLS keeps the wire format whole and has no route_d): RFC 7752 3.2
+        # puts it between the header and the payload, and counts it in the length.
+        route_d = getattr(self, 'route_d', None)
+        if not route_d:
+            return self._packed
+        code, length = unpack('!HH', bytes(self._packed[:4]))
+        distinguisher = bytes(route_d.pack_rd())
+        return pack('!HH', code, length + len(distinguisher)) + distinguisher + bytes(self._packed[4:])
 
     def pack_nlri(self, negotiated: Negotiated) -> Buffer:
         # RFC 7911 ADD-PATH is possible for BGP-LS but not yet implemented
         # TODO: implement addpath support when negotiated.addpath.send(AFI.bgpls, self.safi)
-        # Wire format: [type(2)][length(2)][payload] - _packed includes header
-        return self._packed
+        return self._wire()
 
     def index(self) -> bytes:
-        # Wire format: [family][type(2)][length(2)][payload] - _packed includes header
-        return bytes(Family.index(self)) + self._packed
+        # [family][type(2)][length(2)][rd(8) for bgp-ls-vpn][payload]
+        return bytes(Family.index(self)) + bytes(self._wire())
+
+    def __ne__(self, other: object) -> bool:
+        # the subclasses define __eq__, not all of them defined __ne__ and NLRI.__ne__ compares index()
+        return not self.__eq__(other)
 
     @classmethod
     def unpack_bgpls_nlri(cls, data: Buffer, rd: 'RouteDistinguisher') -> 'BGPLS':
@@ -262,7 +279,7 @@ class BGPLS(NLRI):
         else:
             # GenericBGPLS receives complete wire format including header
             wire_format = bytes(data[0 : length + 4])
-            klass = GenericBGPLS(code, wire_format)
+            klass = GenericBGPLS(code, wire_format, SAFI.from_int(safi))
 
         klass.addpath = addpath
 
@@ -290,14 +307,15 @@ class BGPLS(NLRI):
 class GenericBGPLS(BGPLS):
     __slots__ = ('_code',)
 
-    def __init__(self, code: int, packed: Buffer) -> None:
+    def __init__(self, code: int, packed: Buffer, safi: SAFI = SAFI.bgp_ls) -> None:
         """Create GenericBGPLS with complete wire format.
 
         Args:
             code: NLRI type code
             packed: Complete wire format including 4-byte header [type(2)][length(2)][payload]
+            safi: bgp-ls or bgp-ls-vpn (the route distinguisher is then part of packed)
         """
-        BGPLS.__init__(self)
+        BGPLS.__init__(self, safi=safi)
         self._code = code
         self._packed = packed
 
